@@ -121,7 +121,8 @@ class Ctx:
             ok = "Model checking completed. No error has been found." in out
             st = tlc.parse_stats(out)
             if not ok or st["distinct"] != n + 1:
-                raise Machinery("trace validation (shard %d, %d events) did not complete:\n%s" % (s, n, out[-3000:]))
+                i = out.find("Error:")
+                raise Machinery("trace validation (shard %d, %d events) did not complete:\n%s" % (s, n, out[i:i + 2500] if i >= 0 else out[-3000:]))
             self.p3_states += st["distinct"]
             for v in tlc.print_lines(out):
                 if v[0] == "REJECT":
